@@ -218,10 +218,11 @@ def fault_func(v):
 def confirm(v, nat):
     """does the native run reproduce VM violation v?"""
     k = v["kind"]
-    if nat["desync"]:
-        return False
     if k == "ASSERT":
+        # the recorded inputs end at the violation; running out of inputs afterwards is expected
         return v["label"] in nat["fails"]
+    if nat["desync"] and not nat["sanitizer"]:
+        return False
     if k in MEMFAULTS or k == "UNINIT-USE":
         # the native run shows a memory fault of some class (ASan or UBSan report, or a crash)
         return bool(nat["sanitizer"]) or nat["rc"] in (-11, 139, -6, 134, -4, 132)
